@@ -125,6 +125,11 @@ def gen_action(rng, k, approx_len):
             if F.hashable(k[1]):
                 acts += ['collectAsMap'] * 2
     a = rng.choice(acts)
+    if a in ('count', 'sum', 'mean', 'reduce', 'aggregate') and rng.random() < .15:
+        # the library's other spellings of the same action (countApprox, sumApprox, meanApprox, treeReduce, treeAggregate)
+        act = gen_action(rng, k, approx_len)
+        if act['name'] == a:
+            return dict(act, via='alias')
     if a == 'take':
         return {'name': 'take', 'n': rng.randint(0, approx_len + 1)}
     if a == 'reduce':
@@ -217,16 +222,17 @@ def run_action(rdd, a):
         return F.to_json(rdd.collect())
     if name == 'toLocalIterator':
         return F.to_json(list(rdd.toLocalIterator()))
+    alias = a.get('via')
     if name == 'count':
-        return rdd.count()
+        return rdd.countApprox() if alias else rdd.count()
     if name == 'first':
         return F.to_json(rdd.first())
     if name == 'take':
         return F.to_json(rdd.take(a['n']))
     if name == 'sum':
-        return rdd.sum()
+        return rdd.sumApprox() if alias else rdd.sum()
     if name == 'reduce':
-        return F.to_json(rdd.reduce(F.BIN[a['f']]))
+        return F.to_json(rdd.treeReduce(F.BIN[a['f']]) if alias else rdd.reduce(F.BIN[a['f']]))
     if name == 'fold':
         zero = F.from_json(a['z'])
         res = F.to_json(rdd.fold(zero, F.BIN[a['f']]))
@@ -236,7 +242,7 @@ def run_action(rdd, a):
     if name == 'aggregate':
         z, s, c = F.AGG[a['agg']]
         zero = z()
-        res = F.to_json(rdd.aggregate(zero, F.BIN[s], F.BIN[c]))
+        res = F.to_json(rdd.treeAggregate(zero, F.BIN[s], F.BIN[c]) if alias else rdd.aggregate(zero, F.BIN[s], F.BIN[c]))
         if F.to_json(zero) != F.to_json(z()):
             return {'caller_zero_mutated': F.to_json(zero), 'result': res}
         return res
@@ -255,7 +261,7 @@ def run_action(rdd, a):
     if name == 'max':
         return rdd.max()
     if name == 'mean':
-        return rdd.mean()
+        return rdd.meanApprox() if alias else rdd.mean()
     raise ValueError(name)
 
 
